@@ -142,6 +142,9 @@ func isCBC(sc suiteClass) bool {
 
 var payloadLens = []int{1, 16, 17, 100}
 
+// bigLen: thorough tier only, plain layout only.
+const bigLen = 1100
+
 // cbcExtraLens: payload lengths for which the final CBC plaintext block is nothing but padding (HMAC-SHA1: 12
 // without / 11 with CID; HMAC-SHA256: 16 / 15), so that block-level truncations can present "a record that is
 // all padding" to the receiver without any key.
@@ -165,6 +168,10 @@ func allConfs(thorough bool) []conf {
 					out = append(out, c)
 				}
 			}
+		}
+		if thorough {
+			// a payload close to the default MTU: every bit, every truncation (chained); structured subset fresh
+			out = append(out, conf{SC: sc, PLen: bigLen})
 		}
 	}
 	return out
